@@ -4,6 +4,10 @@ import json, os
 ROOT = os.path.dirname(os.path.dirname(os.path.abspath(__file__)))
 
 CHECKS = {
+ 'C02': dict(level='exploration', design='DESIGN.md §5 C02',
+   technique='z3 lemma over the live BINARY_REORDER table with symbolic operators; CrossHair-driven exhaustive enumeration of operator chains / operand forms / token soup parsed by the real parse_expression against a precedence-climbing reference and an LL(1) recogniser',
+   text='z3 decides, with both operators symbolic, that the live precedence table relates op1 to op2 exactly when op2 binds looser (any wrong entry is rendered to a two-operator chain and replayed). CrossHair then enumerates every operator chain up to the length bound, with each of eight operand forms at each position, with and without blanks, and every token-soup sequence up to three tokens; the real parser sees concrete text on each path and must produce the tree the precedence levels dictate or reject exactly what the grammar rejects, with BareScriptParserError. Apart from the table lemma this is solver-driven enumeration of a finite set, stated as such.',
+   note='Trusted: the reference parsers in vf/props/c02.py, z3, CrossHair. Symbolic text cannot reach the regex-driven parser: depth-8 random expressions and arbitrary token strings are outside the claim.'),
  'C19': dict(level='exploration', design='DESIGN.md §5 C19',
    technique='CrossHair symbolic execution of the data library functions through the real call wrapper on small symbolic tables (measure cells symbolic ints or pool values, key cells chosen by symbolic indices from a mixed-type pool), compared with a relational reference in plain Python',
    text='Per data function and table size CrossHair explores tables whose key cells range over a pool that mixes 1, 1.0, "1", true, null and strings with JSON punctuation and whose measure cells are symbolic: dataAggregate (six functions, partition by value equality, non-null measures, exact rationals), dataSort (ordered by keys/directions, stable), dataTop (first n per category, float and int counts), dataFilter, dataCalculatedField, dataJoin (pairs by key value, left fields never overwritten, right names unique under aa/aa2/aa3 collisions) and the CSV typing round trip incl. date-like invalid text. Conditions that do not exhaust their paths within the budget are reported inconclusive (bug-finding only).',
